@@ -7,8 +7,48 @@ Require Import Tokenizer Splice Equiv RoleTable Lines.
 
 Definition aedit := edit atok.
 
+(* Edit lists as the rules produce them may be unsorted, may repeat an edit, and windows of neighbouring
+   violations may share boundary tokens. [norm_edits] sorts by start and trims what two neighbouring edits share;
+   it is a heuristic, not trusted: [judge] keeps its result only after checking, by computing both sides, that
+   the normalised list rewrites the token list exactly as the original one does. *)
+Fixpoint insert_edit (e : aedit) (l : list aedit) : list aedit :=
+  match l with
+  | [] => [e]
+  | x :: r => if Nat.ltb (e_start e) (e_start x) then e :: l else x :: insert_edit e r
+  end.
+Definition sort_edits (es : list aedit) : list aedit := fold_left (fun acc e => insert_edit e acc) es [].
+
+Definition atok_eqb (a b : atok) : bool := N.eqb (a_id a) (a_id b) && N.eqb (a_role a) (a_role b) && str_eqb (a_val a) (a_val b).
+Fixpoint atoks_eqb (a b : list atok) : bool :=
+  match a, b with
+  | [], [] => true
+  | x :: a', y :: b' => atok_eqb x y && atoks_eqb a' b'
+  | _, _ => false
+  end.
+
+(* prev is the last kept edit; e starts at or after prev's start *)
+Definition trim_against (prev e : aedit) : option aedit :=
+  let k := e_stop prev - e_start e in          (* tokens of the old list both edits cover *)
+  if Nat.eqb k 0 then Some e
+  else if Nat.leb (e_stop e) (e_stop prev) then None      (* e lies inside prev: kept only if it says the same (checked by judge) *)
+  else if Nat.leb k (length (e_new e)) then Some {| e_start := e_stop prev; e_stop := e_stop e; e_new := skipn k (e_new e) |}
+  else Some e.
+Fixpoint trim_edits (prev : option aedit) (es : list aedit) : list aedit :=
+  match es with
+  | [] => []
+  | e :: r =>
+      match prev with
+      | None => e :: trim_edits (Some e) r
+      | Some p => match trim_against p e with
+                  | Some e' => e' :: trim_edits (Some e') r
+                  | None => trim_edits prev r
+                  end
+      end
+  end.
+Definition norm_edits (es : list aedit) : list aedit := trim_edits None (sort_edits es).
+
 Record verdict := mkverdict {
-  v_wf : bool;           (* edits sorted, disjoint, in range *)
+  v_wf : bool;           (* the (normalised) edits are sorted, disjoint, in range *)
   v_after : list atok;   (* Splice.update applied to the current list *)
   v_c01 : bool; v_c01_strict : bool; v_paren : bool; v_lenpres : bool;
   v_c02 : bool; v_c02_rem : bool;
@@ -24,8 +64,11 @@ Definition all_edits (l : list atok) (es : list aedit) (ok : list atok -> list a
 
 Definition kinds_ok (l : list atok) : bool := forallb (fun t => rkind_eqb (a_kind t) (role_kind (a_role t))) l.
 
-Definition judge (l : list atok) (es : list aedit) : verdict :=
-  let after := update l es in
+Definition judge (l : list atok) (es0 : list aedit) : verdict :=
+  let after := update l es0 in
+  let es1 := norm_edits es0 in
+  let same := atoks_eqb (update l es1) after in
+  let es := if same then es1 else es0 in
   mkverdict
     (wf_b 0 (length l) es) after
     (all_edits l es (c01_edit_ok always_fold optional)) (all_edits l es (c01_edit_strict always_fold))
@@ -44,3 +87,10 @@ Definition normalise (l : list atok) : list tok :=
   fix_trailing_whitespace (fix_blank_lines (map to_tok l)).
 Definition coarse (l : list tok) : list (bool * bool * bool * str) :=
   map (fun t => (kind_eqb (tk t) KWs, kind_eqb (tk t) KCr, kind_eqb (tk t) KBlank, tv t)) l.
+
+(* whole-run facts evaluated once per file on the initial and the final list *)
+Definition run_c01 (init final : list atok) : bool :=
+  strs_eqb (essential_np always_fold optional init) (essential_np always_fold optional final).
+Definition run_c02_eq (init final : list atok) : bool := strs_eqb (comments init) (comments final).
+Definition run_c02_sub (init final : list atok) : bool := subseq (comments final) (comments init).
+Definition n_lines (l : list atok) : nat := length (lines_of l []).
